@@ -170,6 +170,19 @@ def _sat_conj0(conj):
             pos.add(a)
     if pos & negs:
         return False
+    # two constant suffixes (prefixes) of one sequence must be compatible
+    for name in ('ends_with', 'starts_with'):
+        by = {}
+        for a in pos:
+            if a[0] == 'call' and a[1] == name and a[2][1][0] == 'bytes':
+                by.setdefault(a[2][0], []).append(a[2][1][1])
+        for seq, cs in by.items():
+            for i in range(len(cs)):
+                for j in range(i + 1, len(cs)):
+                    x, y = cs[i], cs[j]
+                    ok = (x.endswith(y) or y.endswith(x)) if name == 'ends_with' else (x.startswith(y) or y.startswith(x))
+                    if not ok:
+                        return False
     for t, v in variants.items():
         if v in notvariants.get(t, ()):
             return False
